@@ -70,3 +70,13 @@ package parser
 //@   props C12
 //@   results r, err
 //@   ensures decimal: (err == nil) == pIntOK(t.Text) && (err == nil ==> r == pInt(t.Text))
+
+// Every policy of a parsed list is present (no nil element).
+//@ func (PolicySlice) UnmarshalCedar
+//@   props C20
+//@   modifies p
+//@   results err
+//@   ensures err == nil ==> (forall i int :: (0 <= i && i < len(*p)) ==> (*p)[i] != nil)
+//@   loop 1
+//@     invariant 0 <= parser.pos && parser.pos < len(parser.tokens)
+//@     invariant forall i int :: (0 <= i && i < len(policySet)) ==> policySet[i] != nil
